@@ -9,6 +9,7 @@ package c01
 // the real run and Statement.Vars, after database/sql's conversion, equal its bound values.
 
 import (
+	"database/sql"
 	"database/sql/driver"
 	"fmt"
 	"reflect"
@@ -210,6 +211,9 @@ func compare19(c *core.Ctx, mk func() op19, mkSplit splitOp, what string) {
 		}
 	} else {
 		ev := realEvents[0]
+		if dry.mainLast {
+			ev = realEvents[len(realEvents)-1]
+		}
 		if ev.Query != dry.sql {
 			add("dry-run SQL differs from the first statement sent for real:\n  dry : %s\n  real: %s", dry.sql, ev.Query)
 		}
@@ -349,6 +353,48 @@ func run19(c *core.Ctx) {
 		}
 		compare19(c, mk, nil, "soft/"+fin)
 	}
+	// Row() as finisher (it hands out a *sql.Row, the statement stays on the chain value), and a sub-query
+	// handle chained from the operation's own handle that is used by two statements (count, then page)
+	{
+		seed := c.R.U64()
+		fin := core.Pick(c.R, []string{"Row", "RawRow", "TableRow", "SubQueryTwice", "SubQueryTwice", "SubQueryTwiceInOne"})
+		mk := func() op19 {
+			return func(db *gorm.DB) (outcome, string) {
+				g := newGen(core.NewRand(seed))
+				l1 := g.newLeaf("c2", "int")
+				l2 := g.newLeaf("c1", "string")
+				switch fin {
+				case "Row", "RawRow", "TableRow":
+					var tx *gorm.DB
+					switch fin {
+					case "Row":
+						tx = db.Model(&Tag{}).Select("c1").Where("c2 > ?", l1.val)
+					case "RawRow":
+						tx = db.Raw("SELECT c1 FROM tags WHERE c2 > ? AND c1 <> ?", l1.val, l2.val)
+					default:
+						tx = db.Table("tags").Select("c2").Where("c1 <> ?", l2.val)
+					}
+					row := tx.Row()
+					if !tx.DryRun && row != nil && !reflect.DeepEqual(*row, sql.Row{}) {
+						var v interface{}
+						row.Scan(&v)
+					}
+					return outcome{sql: tx.Statement.SQL.String(), vars: tx.Statement.Vars, err: tx.Error, res: tx}, "db." + fin + "()"
+				case "SubQueryTwiceInOne":
+					sub := db.Model(&Tag{}).Select("id").Where("c2 > ?", l1.val)
+					res := db.Model(&Tag{}).Where("c1 <> ?", l2.val).Where("id IN (?) OR parent_id IN (?)", sub, sub).Find(&[]Tag{})
+					return outcome{sql: res.Statement.SQL.String(), vars: res.Statement.Vars, err: res.Error, res: res}, "sub := db.Model(&Tag{}).Select(id).Where(c2 > ?); db.Where(c1 <> ?).Where(id IN (?) OR parent_id IN (?), sub, sub).Find"
+				}
+				sub := db.Model(&Tag{}).Select("id").Where("c2 > ?", l1.val)
+				var n int64
+				db.Model(&Tag{}).Where("c1 <> ?", l2.val).Where("id IN (?)", sub).Count(&n)
+				res := db.Model(&Tag{}).Where("c1 <> ?", l2.val).Where("id IN (?)", sub).Order("id").Limit(2).Find(&[]Tag{})
+				return outcome{sql: res.Statement.SQL.String(), vars: res.Statement.Vars, err: res.Error, res: res, mainLast: true},
+					"sub := db.Model(&Tag{}).Select(id).Where(c2 > ?); db.Where(c1 <> ?).Where(id IN (?), sub).Count; the same chain .Order.Limit.Find"
+			}
+		}
+		compare19(c, mk, nil, "extra/"+fin)
+	}
 	// model with unix-number time tracking
 	{
 		seed := c.R.U64()
@@ -391,7 +437,7 @@ func run19(c *core.Ctx) {
 var EngineC19 = &core.Engine{
 	ID:    "C19",
 	Level: "exploration",
-	Rule: "the chains and 25 finishers of C01 (raw/named/map/struct/clause/grouped conditions, sub-queries, Select/Joins/Having/Order expressions, creates from struct/slice/map/[]map, upserts, Save, Raw/Exec) on the real columns of a seeded SQLite table, plus 11 soft-delete operations and 10 writes of a model that tracks its times as unix numbers (seconds, milli, nano, unsigned), each executed four times from identical handles and logical clocks: Session{DryRun}, Config.DryRun, ToSQL, and for real behind the recording driver; " +
+	Rule: "the chains and 25 finishers of C01 (raw/named/map/struct/clause/grouped conditions, sub-queries, Select/Joins/Having/Order expressions, creates from struct/slice/map/[]map, upserts, Save, Raw/Exec) on the real columns of a seeded SQLite table, plus Row() finishers, a sub-query handle used by two statements, 11 soft-delete operations and 10 writes of a model that tracks its times as unix numbers (seconds, milli, nano, unsigned), each executed four times from identical handles and logical clocks: Session{DryRun}, Config.DryRun, ToSQL, and for real behind the recording driver; " +
 		"distinct = (finisher, SQL verb, number of bound values, number of real statements); non-trivial = the real run sent at least one statement that was compared with the dry run's SQL and bound values",
 	Assumptions: []string{
 		"the main statement of an operation is the first prepare/exec/query event of the real run (records carry no nested association values)",
